@@ -810,7 +810,7 @@ func init() {
 				"64-bit integers are accepted as JSON number or string",
 				"the source node is the harness's model-backed node, so typed values reach the writer without passing through the library's conversion code",
 			},
-			QuickRuns:    300,
+			QuickRuns:    400,
 			ThoroughRuns: 1 << 30,
 			ThoroughTime: 10 * time.Minute,
 			Components: map[string]string{
